@@ -28,6 +28,33 @@ PATTERNS = [b'hello', b'^hello', b'world$', b'[0-9]+\\.[0-9]', b'(lorem) (ipsum)
             b'hello world', b'ipsumRe', b'1\\.5 Re', b'x{3,}', b'(a|b)=(a|b)']
 
 
+def delimiter_stage(ck, stats):
+    """patterns written with other delimiters and with escaped delimiters: a backslash in front of the delimiter stands for the delimiter
+    character itself (inside bracket expressions too), everything else reaches regcomp as written"""
+    values = [b'usr\\local', b'usr/local', b'bar', b'foo|bar', b'abc', b'a.c', b'x@y', b'x\\@y', b'a/b', b'ab']
+    written = [(b'/', b'^[a-z\\/]+$'), (b'|', b'^(foo\\|bar)$'), (b'.', b'^a\\.c$'), (b'@', b'^x\\@y$'), (b'/', b'^a\\/b$'), (b'@', b'^[a-z/]+$'),
+               (b'|', b'^[a-z\\|]+$'), (b'@', b'a.c|x.y')]
+    for delim, w in written:
+        regex = w.replace(b'\\' + delim, delim)
+        sb = mdrun.Sandbox()
+        src = sb.maildir('src'); dst = sb.maildir('dst')
+        for i, v in enumerate(values):
+            sb.add(src, 'new', b'To: a\nX-P: %s\nX-Id: %d\n\nbody\n' % (v, i))
+        conf = sb.write_conf(b'maildir "%s" {\n\tmatch header "X-P" %s%s%s move "%s"\n}\n' % (src.encode(), delim, w, delim, dst.encode()))
+        rc, out, err = sb.run([], conf=conf)
+        res = common.regex_eval([(False, regex, v) for v in values])
+        want = set(i for i, r in enumerate(res) if r not in (None, 'E'))
+        import re as _re
+        got = set(int(_re.search(rb'^X-Id: (\d+)$', b, _re.M).group(1)) for b in sb.snapshot(dst).values())
+        stats['evals'] += len(values); stats['binary'] += len(values); stats['matched'] += len(got)
+        if rc != 0 or got != want:
+            stats['viol'] += 1
+            ck.violation('pattern written %s%s%s (the regular expression %r): moved the messages with values %r, the expression matches %r (exit %d, %r)'
+                         % (delim.decode(), w.decode(), delim.decode(), regex, [values[i] for i in sorted(got)], [values[i] for i in sorted(want)], rc, err[-150:]),
+                         {'stream': 'delimiters', 'config': open(conf, 'rb').read().decode(errors='replace'), 'exit': rc})
+        sb.cleanup()
+
+
 def after_other_conditions(ck, stats):
     """a header condition sees every occurrence of its field also when a body, attachment or date condition has looked at the message
     before it (those conditions read Content-Type, Content-Transfer-Encoding and Date themselves)"""
@@ -110,6 +137,7 @@ def run(ck):
             samples.append({'message': repr(text[:200]), 'queries': [repr(q) for q in qs]})
     # ---- stream 2: the binary with header rules, regexec as the platform computes it ---------------
     after_other_conditions(ck, stats)
+    delimiter_stage(ck, stats)
     nbin = 10 if ck.tier == 'quick' else 150
     for round_ in range(nbin):
         sb = mdrun.Sandbox()
